@@ -555,6 +555,7 @@ func (r *Run) runBatch(k int, lo, hi int, opts ExecOpts, gen func(i int) *Item) 
 						continue // truncated last line of a dying worker
 					}
 					completed[res.ID] = true
+					r.noteSlow(res.ElapsedMs, byID[res.ID])
 					if it := byID[res.ID]; it != nil {
 						if opts.Race {
 							res.Stderr = "" // race reports are collected from GORACE log files by the check
@@ -621,6 +622,22 @@ func (r *Run) runBatch(k int, lo, hi int, opts ExecOpts, gen func(i int) *Item) 
 			break
 		}
 	}
+}
+
+func (r *Run) noteSlow(ms int, it *Item) {
+	if it == nil {
+		return
+	}
+	r.mu.Lock()
+	if int64(ms) > r.maxes["case_ms"] {
+		r.maxes["case_ms"] = int64(ms)
+		src := string(it.Case.Src)
+		if src == "" && len(it.Case.Srcs) > 0 {
+			src = string(it.Case.Srcs[0])
+		}
+		r.Extra["slowest_case"] = map[string]any{"ms": ms, "op": it.Case.Op, "src": oneLine(src, 300)}
+	}
+	r.mu.Unlock()
 }
 
 // ---- finishing ----------------------------------------------------------------------
